@@ -9,6 +9,7 @@ Coq model (Model/ListBoxView.v) and judged by an oracle written from the propert
 import ast
 import glob
 import itertools
+import json
 import os
 import re
 import warnings
@@ -22,7 +23,8 @@ ERRN = {1: "IndexError", 2: "ValueError", 3: "TypeError", 4: "WidgetError", 5: "
 CF = {None: 0, "above": 1, "below": 2}
 KEYC = {"up": 1, "down": 2, "j": 3, "k": 4}
 COLS = 8
-EDITS = ("insert", "delete", "replace", "reflow", "clear")
+EDITS = ("insert", "delete", "replace", "reflow", "clear", "imul", "iadd", "setslice", "reverse", "sort")
+REAL_COLS = 12
 WRITERS = ("__init__", "shift_focus", "change_focus")
 VIEW_ATTRS = ("offset_rows", "inset_fraction")
 
@@ -159,6 +161,12 @@ def widgets():
         def __getitem__(self, i):
             return self.ws[i]
 
+        def replace_all(self, ws):
+            """any other in-place edit: the focus index is kept when it is still valid"""
+            self.ws = list(ws)
+            self.f = max(0, min(self.f, len(self.ws) - 1))
+            self._modified()
+
     _W.update(Item=Item, Zero=Zero, Sel=Sel, IdxWalker=IdxWalker, urwid=urwid)
     return _W
 
@@ -166,10 +174,15 @@ def widgets():
 def make_widget(kind, n, spec):
     W = widgets()
     urwid = W["urwid"]
-    h, sel, cy = spec
+    h, sel, cy = spec[:3]
     if kind != "real":
         return W["Item"](n, h, sel, cy)
-    if h == 0:
+    if len(spec) > 3 and spec[3] is not None:
+        # a multi-shard item: two columns of different heights, every cell labelled (item, row, column)
+        left = urwid.Text("\n".join(f"{n}:{r}L" for r in range(h))) if h else W["Zero"]()
+        right = urwid.Text("\n".join(f"{n}:{r}R" for r in range(spec[3]))) if spec[3] else W["Zero"]()
+        w = urwid.Columns([(REAL_COLS // 2, left), (REAL_COLS // 2, right)])
+    elif h == 0:
         w = W["Zero"]()
     else:
         text = "\n".join(f"{n}:{r}" for r in range(h))
@@ -192,19 +205,32 @@ def widget_cy(w, cols):
     return None if c is None else c[1]
 
 
-def read_rows(canvas, ids):
-    """rows of a canvas as [index, row] / [-1, -1] for blank; ids: widget id -> current index"""
-    out = []
+def read_rows(canvas):
+    """rows of a canvas as ([widget id, row] / [-1, -1] for blank / [-3, -3] for anything else, text of the row).
+    A row of a multi-column item carries one label per column: they must name the same (item, row)."""
+    out, texts = [], []
     for row in canvas.content():
-        txt = b"".join(t for _a, _cs, t in row).decode("ascii", "replace").strip()
-        m = re.fullmatch(r"(\d+):(\d+)", txt)
-        if m:
-            out.append([ids.get(int(m.group(1)), -2), int(m.group(2))])
-        elif txt == "":
+        txt = b"".join(t for _a, _cs, t in row).decode("ascii", "replace").rstrip()
+        texts.append(txt)
+        toks = txt.split()
+        ms = [re.fullmatch(r"(\d+):(\d+)[LR]?", t) for t in toks]
+        if not toks:
             out.append([-1, -1])
+        elif all(ms) and len({(m.group(1), m.group(2)) for m in ms}) == 1:
+            out.append([int(ms[0].group(1)), int(ms[0].group(2))])
         else:
             out.append([-3, -3])
-    return out
+    return out, texts
+
+
+def window_candidates(vid, ids, hs):
+    """(number of leading non-blank rows, every p such that the stacked rows [p, p+nb) are those rows)"""
+    stack = [[ids[k], j] for k, h in enumerate(hs) for j in range(h)]
+    nb = next((j for j, row in enumerate(vid) if row == [-1, -1]), len(vid))
+    content = vid[:nb]
+    if nb == 0:
+        return nb, [len(stack)], stack
+    return nb, [p for p in range(len(stack) - nb + 1) if stack[p:p + nb] == content], stack
 
 
 class C07(core.Check):
@@ -311,6 +337,36 @@ class C07(core.Check):
             for w, sp in zip(list(body), a[1]):
                 if hasattr(w, "reflow"):
                     w.reflow(*sp)
+        elif k in ("imul", "iadd", "setslice", "reverse", "sort"):
+            new = []
+            if k == "iadd":
+                new = [make_widget(kind, nxt[0] + i, sp) for i, sp in enumerate(a[1])]
+            elif k == "setslice":
+                new = [make_widget(kind, nxt[0] + i, sp) for i, sp in enumerate(a[3])]
+            nxt[0] += len(new)
+            if hasattr(body, "replace_all"):          # the custom walker: the same edit on its plain list
+                l = list(body)
+                if k == "imul":
+                    l *= a[1]
+                elif k == "iadd":
+                    l += new
+                elif k == "setslice":
+                    l[a[1]:a[2]] = new
+                elif k == "reverse":
+                    l.reverse()
+                else:
+                    l.sort(key=lambda w: w.n, reverse=bool(a[1]))
+                body.replace_all(l)
+            elif k == "imul":
+                body *= a[1]
+            elif k == "iadd":
+                body += new
+            elif k == "setslice":
+                body[a[1]:a[2]] = new
+            elif k == "reverse":
+                body.reverse()
+            else:
+                body.sort(key=lambda w: w.n, reverse=bool(a[1]))
         else:
             raise core.MachineryError("unknown action " + k)
         return None
@@ -321,10 +377,11 @@ class C07(core.Check):
         W = widgets()
         urwid = W["urwid"]
         kind = case.get("kind", "item")
-        cols = case.get("cols", COLS)
+        cols = case.get("cols", COLS if kind == "item" else REAL_COLS)
         lb, body, ws = self.build(case)
         nxt = [len(ws)]
         steps, aux = [], []
+        keep = []      # like a screen, the harness holds on to the canvases it was given (the canvas cache is weak)
         if case.get("state") is not None:
             urwid.CanvasCache.clear()
         for stp in case["steps"]:
@@ -341,12 +398,14 @@ class C07(core.Check):
             except core.MachineryError:
                 raise
             except Exception as e:    # noqa: BLE001 - every exception class is an observable here
-                out.update(err=norm_err(type(e).__name__), exc=type(e).__name__, where="action")
+                out.update(err=norm_err(type(e).__name__), exc=type(e).__name__, where="action",
+                           msg=re.sub(r"-?\d+", "N", str(e))[:80])
                 break
             cur_ws = list(body)
-            ids = {getattr(w, "n", None): i for i, w in enumerate(cur_ws)}
+            ids = [getattr(w, "n", None) for w in cur_ws]
             ax["sa"] = self.lb_state(lb, body)
             ax["items"] = [w.spec() for w in cur_ws] if kind == "item" else None
+            ax["dups"] = len(set(map(id, cur_ws))) != len(cur_ws)
             out["fa"] = ax["sa"][0]
             if ax["mod"]:
                 out["sa"] = ax["sa"]
@@ -356,23 +415,48 @@ class C07(core.Check):
                 continue                 # a step without a render (requests may stay pending)
             try:
                 canv = lb.render(size, ff)
-                view = read_rows(canv, ids)
+                keep.append(canv)
+                del keep[:-3]
+                vid, texts = read_rows(canv)
                 cur = canv.cursor
             except Exception as e:    # noqa: BLE001
                 out.update(err=norm_err(type(e).__name__), exc=type(e).__name__, where="render")
                 out["n"] = len(cur_ws)
                 break
-            out["view"] = view
             out["cur"] = None if cur is None else cur[1]
             out["st"] = self.lb_state(lb, body)
             fw, _fp = body.get_focus()
-            out["f"] = out["st"][0]
+            f = out["f"] = out["st"][0]
             out["fcy"] = None if (fw is None or not ff) else widget_cy(fw, cols)
-            out["hs"] = [w.rows((cols,), False) for w in cur_ws]
+            hs = out["hs"] = [w.rows((cols,), False) for w in cur_ws]
             out["sel"] = [1 if w.selectable() else 0 for w in cur_ws]
+            out["ids"] = ids
+            out["vid"] = vid
+            out["view"] = self.positional_view(vid, ids, hs, f)
+            if kind != "item":
+                # the items' own renderings at that width, for the cell-wise comparison
+                out["vt"] = texts
+                out["stk"] = [t for w in cur_ws for t in read_rows(w.render((cols,), False))[1]]
         res = {"steps": steps}
         self._cache = {"key": core.canon(case), "res": res, "aux": aux}
         return res
+
+    @staticmethod
+    def positional_view(vid, ids, hs, f):
+        """the window as [walker position, row]: the rows are located in the stack of the items (the same widget
+        may be listed twice after 'walker *= 2'); a window that is no slice keeps the last position of each id"""
+        nb, cands, _stack = window_candidates(vid, ids, hs)
+        pos = [[k, j] for k, h in enumerate(hs) for j in range(h)]
+        if cands and nb:
+            before = sum(hs[:f]) if f is not None and 0 <= f < len(hs) else 0
+            hf = hs[f] if f is not None and 0 <= f < len(hs) else 0
+            best = [p for p in cands if p < before + hf and before < p + nb] or cands
+            view = pos[best[0]:best[0] + nb]
+        else:
+            last = {n: k for k, n in enumerate(ids)}
+            view = [[last.get(n, -2), r] if n >= 0 else [n, r] for n, r in vid[:nb]]
+        rest = {n: k for k, n in enumerate(ids)}
+        return view + [[rest.get(n, -2), r] if n >= 0 else [n, r] for n, r in vid[nb:]]
 
     # ---------- model wire format ----------
     @staticmethod
@@ -397,6 +481,11 @@ class C07(core.Check):
             a, maxrow = stp["a"], stp["mr"]
             r, ax = res["steps"][i], aux[i]
             k = a[0]
+            if ax.get("dups"):
+                # the same widget object listed twice ('walker *= 2'): positions in the window are ambiguous,
+                # the rest of the history is judged by the oracle only
+                plan.append(("stop",))
+                break
             if ax["mod"]:
                 if k == "none":
                     plan.append(("model", []))
@@ -473,13 +562,14 @@ class C07(core.Check):
                 out = {}
                 steps.append(out)
                 if pl[0] == "stop":
-                    out.update(r)           # nothing comparable: the step is taken as is
+                    out.update(r)           # nothing comparable from here on: the steps are taken as they are
+                    steps.extend(dict(x) for x in res["steps"][i + 1:])
                     break
                 if pl[0] == "model":
                     if pl[1]:
                         err, oc, st = reply()
                         if err:
-                            out.update(err=err, exc=r.get("exc"), where="action")
+                            out.update(err=err, exc=r.get("exc"), where="action", msg=r.get("msg"))
                             break
                     else:
                         st = r.get("sa")
@@ -501,104 +591,111 @@ class C07(core.Check):
                 out["view"], out["cur"] = oc
                 out["st"] = st + r.get("st", [])[5:]      # the alignment-pending marker is not part of the model
                 out["f"] = st[0]
-                for kk in ("fcy", "hs", "sel"):
+                for kk in ("fcy", "hs", "sel", "ids", "vid"):
                     out[kk] = r.get(kk)
         except StopIteration:
             return {"malformed": ints[:60]}
         return {"steps": steps}
 
     # ---------- oracle: written from the property text; uses only the case and what was observed ----------
-    def oracle(self, case, res):
-        """core keeps at most 200 reports per run and de-duplicates them by signature afterwards: while the
-        generated cases are being evaluated, at most DUP_CAP reports per signature are passed on (the rest are only
-        counted), so that repetitions of one finding can not crowd a different violation out of the report list"""
-        msgs = self.judge(case, res)
-        if not getattr(self, "_suppress", False):
-            return msgs
+    # exceptions raised by keypress / mouse_event on the reference tree: (key | "mouse", class, message class)
+    BASELINE_FILE = os.path.join(core.ROOT, "corpus", "C07", "baseline_keypress_exceptions.json")
+    _baseline = None
+
+    def baseline(self):
+        if self._baseline is None:
+            try:
+                self._baseline = {tuple(x) for x in json.load(open(self.BASELINE_FILE))["baseline"]}
+            except (OSError, ValueError, KeyError):
+                self._baseline = set()
+        return self._baseline
+
+    def corpus_cases(self):
         out = []
-        for m in msgs:
-            sig = self.signature(case, m)
-            k = self._sig_count.get(sig, 0)
-            self._sig_count[sig] = k + 1
-            if k < self.DUP_CAP:
-                out.append(m)
+        for path in sorted(glob.glob(os.path.join(core.ROOT, "corpus", self.pid, "*.json"))):
+            if os.path.basename(path).startswith("baseline"):
+                continue
+            j = json.load(open(path))
+            out.extend(j if isinstance(j, list) else [j])
         return out
 
-    DUP_CAP = 12
-
-    def judge(self, case, res):
+    def oracle(self, case, res):
         if "ast" in case:
             return [m for c, m in self.judge_sites([tuple(x) for x in res["sites"]]) if c["ast"][:4] == case["ast"][:4]]
         msgs = []
         steps = res.get("steps", [])
-        pending_since = None     # index of a set_focus whose completion has not been rendered yet
-        deleted_since = False
         for i, r in enumerate(steps):
             stp = case["steps"][i]
             a, maxrow, ff = stp["a"], stp["mr"], bool(stp["ff"])
             tag = f"step {i} ({a[0]}{' ' + str(a[1]) if a[0] == 'key' else ''})"
-            if a[0] == "set_focus" and "err" not in r:
-                pending_since, deleted_since = i, False
-            if a[0] in ("delete", "clear", "replace") and pending_since is not None:
-                deleted_since = True
             if "err" in r:
                 if r.get("where") == "render":
-                    extra = ""
-                    if pending_since is not None and deleted_since:
-                        extra = " [a set_focus request was pending while items were removed from the walker]"
-                    msgs.append(f"{tag}: render raised {r.get('exc')}{extra}")
-                # exceptions raised by keypress / mouse_event / the direct calls are outside the literal statement
+                    msgs.append(f"{tag}: render raised {r.get('exc')}")
+                elif a[0] in ("key", "mouse"):
+                    # An exception out of keypress / mouse_event is not literally "rendering raises", but it ends the
+                    # history.  Regression oracle: only the situations in which the reference tree raises are accepted.
+                    sig = (a[1] if a[0] == "key" else "mouse", r.get("exc"), r.get("msg"))
+                    if sig not in self.baseline():
+                        msgs.append(f"{tag}: {'keypress' if a[0] == 'key' else 'mouse_event'} raised {r.get('exc')} "
+                                    f"'{r.get('msg')}': not one of the recorded situations in which the reference tree "
+                                    f"raises (corpus/C07/baseline_keypress_exceptions.json); the history can not go on")
+                # exceptions raised by the direct calls (set_focus, shift_focus, change_focus) report invalid arguments
                 break
-            if "view" not in r:
+            if "vid" not in r:
                 continue
-            pending_since = None
-            view, hs, f = r["view"], r["hs"], r["f"]
-            stack = [[k, j] for k, h in enumerate(hs) for j in range(h)]
-            if len(view) != maxrow:
-                msgs.append(f"{tag}: rendered {len(view)} rows in a box of {maxrow}")
+            vid, ids, hs, f = r["vid"], r["ids"], r["hs"], r["f"]
+            if len(vid) != maxrow:
+                msgs.append(f"{tag}: rendered {len(vid)} rows in a box of {maxrow}")
                 continue
-            nb = next((j for j, row in enumerate(view) if row == [-1, -1]), len(view))
-            if any(row != [-1, -1] for row in view[nb:]):
-                msgs.append(f"{tag}: a blank row lies above a row of an item: {view}")
+            nb, cands, stack = window_candidates(vid, ids, hs)
+            if any(row != [-1, -1] for row in vid[nb:]):
+                msgs.append(f"{tag}: a blank row lies above a row of an item: {vid}")
                 continue
-            content = view[:nb]
-            if nb:
-                if content[0] not in stack:
-                    msgs.append(f"{tag}: row {content[0]} is not a row of any item")
-                    continue
-                p = stack.index(content[0])
-            else:
-                p = len(stack)
-            if stack[p:p + nb] != content:
-                msgs.append(f"{tag}: the rows shown are not a contiguous slice of the stacked items: {view}")
+            if [-3, -3] in vid:
+                msgs.append(f"{tag}: a row is not a row of any item (its cells are unreadable or name different rows): "
+                            f"{r.get('vt', vid)}")
                 continue
-            if nb < maxrow:
-                if p + nb != len(stack):
-                    msgs.append(f"{tag}: blank rows below row {p + nb - 1} although items continue below: {view}")
-                elif p != 0:
-                    msgs.append(f"{tag}: blank rows at the bottom while {p} rows above the window are not shown: {view}")
-            if f is not None and f >= 0 and f < len(hs):
-                if hs[f] >= 1 and not any(row[0] == f for row in content):
-                    msgs.append(f"{tag}: no row of the focus item {f} is visible: {view}")
-                fcy = r.get("fcy")
-                if fcy is not None and hs[f] >= 1 and ff:
-                    cur = r.get("cur")
-                    if cur is None or not (0 <= cur < len(view)) or view[cur] != [f, fcy]:
-                        msgs.append(f"{tag}: the cursor row {fcy} of the focus item {f} is not shown at the canvas cursor "
-                                    f"(cursor y {cur}): {view}")
-            elif stack:
-                msgs.append(f"{tag}: no focus although the list has rows")
+            if not cands:
+                msgs.append(f"{tag}: the rows shown are not a contiguous slice of the stacked items: {vid}")
+                continue
+            vt, stk = r.get("vt"), r.get("stk")
+
+            def complaints(p):
+                c = []
+                if nb < maxrow:
+                    if p + nb != len(stack):
+                        c.append(f"{tag}: blank rows below row {p + nb - 1} although items continue below: {vid}")
+                    elif p != 0:
+                        c.append(f"{tag}: blank rows at the bottom while {p} rows above the window are not shown: {vid}")
+                if f is not None and 0 <= f < len(hs):
+                    before = sum(hs[:f])
+                    if hs[f] >= 1 and not (p < before + hs[f] and before < p + nb):
+                        c.append(f"{tag}: no row of the focus item {f} is visible: {vid}")
+                    fcy = r.get("fcy")
+                    if fcy is not None and hs[f] >= 1 and ff:
+                        cur = r.get("cur")
+                        if cur is None or not (0 <= cur < nb) or cur != before + fcy - p:
+                            c.append(f"{tag}: the cursor row {fcy} of the focus item {f} is not shown at the canvas cursor "
+                                     f"(cursor y {cur}): {vid}")
+                elif stack:
+                    c.append(f"{tag}: no focus although the list has rows")
+                if vt is not None and stk is not None and len(stk) == len(stack):
+                    if vt[:nb] != stk[p:p + nb]:
+                        bad = next(k for k in range(nb) if vt[k] != stk[p + k])
+                        c.append(f"{tag}: cell-wise, row {bad} of the window shows {vt[bad]!r} where the item's own rendering "
+                                 f"has {stk[p + bad]!r}: not a slice of the concatenated renderings")
+                return c
+
+            best = min((complaints(p) for p in cands), key=len)
+            msgs.extend(best)
             # button-1 press on a visible selectable item makes it the focus
             if a[0] == "mouse" and a[1] == 1 and i > 0:
                 prev, pstp = steps[i - 1], case["steps"][i - 1]
                 if "view" in prev and pstp["mr"] == maxrow and pstp["ff"] and 0 <= a[2] < maxrow:
-                    tgt = prev["view"][a[2]][0]
-                    if tgt >= 0 and prev["sel"][tgt] and r.get("fa") != tgt:
-                        extra = ""
-                        if len(prev.get("st", [])) > 5:
-                            extra = " [a set_focus_valign request was still pending: the canvas shown came from the cache]"
-                        msgs.append(f"{tag}: button-1 press on row {a[2]} (selectable item {tgt}) left the focus at "
-                                    f"{r.get('fa')}{extra}")
+                    tgt, fa = prev["view"][a[2]][0], r.get("fa")
+                    pid = prev["ids"]
+                    if 0 <= tgt < len(pid) and prev["sel"][tgt] and not (fa is not None and 0 <= fa < len(pid) and pid[fa] == pid[tgt]):
+                        msgs.append(f"{tag}: button-1 press on row {a[2]} (selectable item {tgt}) left the focus at {fa}")
         return msgs
 
     def nontrivial(self, case, res):
@@ -613,8 +710,6 @@ class C07(core.Check):
     def distribution(self, case, res, dist):
         if "ast" in case:
             return
-        if getattr(self, "_sig_count", None):
-            dist["reports_beyond_duplicate_cap"] = sum(max(0, v - self.DUP_CAP) for v in self._sig_count.values())
 
         def inc(k):
             dist[k] = dist.get(k, 0) + 1
@@ -625,7 +720,8 @@ class C07(core.Check):
             a = stp["a"]
             inc("action:" + a[0] + (":" + str(a[1]) if a[0] == "key" else ""))
             if "err" in r:
-                inc(f"raised:{r['where']}:{a[0]}{':' + str(a[1]) if a[0] == 'key' else ''}:{r.get('exc')}")
+                inc(f"raised:{r['where']}:{a[0]}{':' + str(a[1]) if a[0] == 'key' else ''}:{r.get('exc')}"
+                    + (f":{r.get('msg')}" if a[0] in ("key", "mouse") else ""))
                 continue
             if "view" not in r:
                 inc("step_without_render")
@@ -639,6 +735,10 @@ class C07(core.Check):
                 inc("cursor_checked")
             if r["st"][2] != 0:
                 inc("inset_state")
+            if len(set(r["ids"])) != len(r["ids"]):
+                inc("walker_lists_a_widget_twice")
+            if r.get("vt") and r["vid"][0][1] > 0 and re.search(r"[LR]\b", r["vt"][0]):
+                inc("multi_shard_item_cut_at_the_top")
 
     # ---------- generators ----------
     @staticmethod
@@ -662,8 +762,11 @@ class C07(core.Check):
 
     KEYS = ["up", "down", "page up", "page down", "home", "end", "j", "k", "x"]
 
-    def rand_spec(self, rng, hmax):
+    def rand_spec(self, rng, hmax, kind="item"):
         h = rng.choice([0, 1, 1, 2, 3, hmax, hmax + 2])
+        if kind == "real" and rng.random() < 0.3:
+            # a multi-shard item: two columns of different heights
+            return [h, 0, None, rng.choice([x for x in (0, 1, 2, 3, 5, hmax + 1) if x != h])]
         sel = rng.random() < 0.6
         cy = rng.randrange(h) if (h and sel and rng.random() < 0.6) else None
         return [h, 1 if sel else 0, cy]
@@ -671,7 +774,7 @@ class C07(core.Check):
     def random_history(self, rng, kind="item", nsteps=12):
         n = rng.choice([0, 1, 2, 3, 3, 4, 5, 7])
         hmax = rng.choice([2, 3, 5])
-        items = [self.rand_spec(rng, hmax) for _ in range(n)]
+        items = [self.rand_spec(rng, hmax, kind) for _ in range(n)]
         if kind == "item" and rng.random() < 0.2:
             for it in items:
                 it[1] = 1
@@ -701,13 +804,27 @@ class C07(core.Check):
             elif x < 0.73:
                 a = ["valign", rng.choice(["top", "middle", "bottom", ["relative", rng.choice([0, 10, 33, 50, 90, 100])]])]
             elif x < 0.80:
-                a = ["insert", rng.randrange(m + 1), self.rand_spec(rng, hmax)]
+                a = ["insert", rng.randrange(m + 1), self.rand_spec(rng, hmax, kind)]
             elif x < 0.86:
                 a = ["delete", rng.randrange(m)] if m else ["none"]
             elif x < 0.89:
-                a = ["replace", rng.randrange(m), self.rand_spec(rng, hmax)] if m else ["none"]
-            elif x < 0.92 and kind == "item":
+                a = ["replace", rng.randrange(m), self.rand_spec(rng, hmax, kind)] if m else ["none"]
+            elif x < 0.905 and kind == "item":
                 a = ["reflow", [self.rand_spec(rng, hmax) for _ in range(m)]]
+            elif x < 0.92:
+                y = rng.randrange(5)
+                if y == 0:
+                    a = ["imul", rng.choice([0, 1, 2, 2, 3])]
+                elif y == 1:
+                    a = ["iadd", [self.rand_spec(rng, hmax, kind) for _ in range(rng.choice([0, 1, 2]))]]
+                elif y == 2:
+                    i0 = rng.randrange(m + 1)
+                    a = ["setslice", i0, min(m, i0 + rng.choice([0, 1, 2])),
+                         [self.rand_spec(rng, hmax, kind) for _ in range(rng.choice([0, 1, 2]))]]
+                elif y == 3:
+                    a = ["reverse"]
+                else:
+                    a = ["sort", rng.choice([0, 1])]
             elif x < 0.93:
                 a = ["clear"]
             elif x < 0.96 and m:
@@ -728,8 +845,14 @@ class C07(core.Check):
                 cur = [list(x) for x in a[1]]
             elif a[0] == "clear":
                 cur = []
+            elif a[0] == "imul":
+                cur = cur * a[1]
+            elif a[0] == "iadd":
+                cur = cur + a[1]
+            elif a[0] == "setslice":
+                cur[a[1]:a[2]] = a[3]
             steps.append(self.step(a, maxrow, ff))
-            if a[0] in ("set_focus", "valign", "insert", "delete", "replace", "clear") and rng.random() < 0.25:
+            if a[0] in ("set_focus", "valign", "insert", "delete", "replace", "clear", "imul", "iadd", "setslice") and rng.random() < 0.25:
                 steps[-1]["nr"] = 1
         case["steps"] = steps
         return case
@@ -752,14 +875,58 @@ class C07(core.Check):
                     yield {"walker": "sflw", "items": items, "focus": rng.randrange(n),
                            "steps": [self.step(["none"], maxrow)] + [self.step(["key", k], maxrow) for k in seq]}
 
-    def cases(self, rng, tier):
-        self._suppress, self._sig_count = True, {}
-        try:
-            yield from self.all_cases(rng, tier)
-        finally:
-            self._suppress = False
+    def shard_histories(self, rng, n):
+        """lists with multi-shard items (two columns of different heights) scrolled line by line through boxes
+        of every small height, down and back up"""
+        pairs = [(5, 2), (2, 5), (4, 1), (1, 4), (3, 6), (6, 3), (3, 0), (0, 3), (2, 2)]
+        for _ in range(n):
+            k = rng.choice([1, 2, 2, 3])
+            items = []
+            for _i in range(k):
+                a, b = rng.choice(pairs)
+                items.append([a, 0, None, b])
+                items += [[rng.choice([1, 1, 2]), 0, None] for _j in range(rng.choice([0, 1, 2]))]
+            if rng.random() < 0.5:
+                items.insert(rng.randrange(len(items) + 1), [rng.choice([1, 3]), 1, 0])
+            total = sum(max(x[0], x[3] if len(x) > 3 else 0) for x in items)
+            maxrow = rng.choice([1, 2, 3, 4, 5])
+            keys = ["down"] * (total + 1) + ["up"] * (total + 1) if rng.random() < 0.6 else \
+                   [rng.choice(["down", "down", "page down", "up", "page up", "end", "home"]) for _i in range(total + 4)]
+            yield {"kind": "real", "walker": rng.choice(["sflw", "slw", "custom"]), "items": items, "focus": 0,
+                   "steps": [self.step(["none"], maxrow)] + [self.step(["key", key], maxrow) for key in keys]}
 
-    def all_cases(self, rng, tier):
+    def spaced_histories(self, kind, gaps, heights):
+        """selectable items separated by `gap` one-row unselectable ones, paged through boxes of every height"""
+        seq = ["page down", "page down", "page up", "page down", "page down", "page down", "page up", "page up"]
+        for gap in gaps:
+            for maxrow in heights:
+                for rows in (1, 2):
+                    items = []
+                    for _n in range(4):
+                        items.append([rows, 1, rows - 1])
+                        items += [[1, 0, None] for _i in range(gap)]
+                    yield {"kind": kind, "walker": "sflw", "items": items, "focus": 0,
+                           "steps": [self.step(["none"], maxrow)] + [self.step(["key", key], maxrow) for key in seq]}
+
+    def edit_histories(self, rng):
+        """every kind of in-place walker edit between two renders at the same size (the previous canvas is still
+        referenced, as by a screen): the second render has to show the edited list"""
+        fresh = [[2, 1, None], [1, 0, None]]
+        for wk in ("sflw", "slw", "custom"):
+            for kind in ("item", "real"):
+                for n in (1, 2, 4):
+                    items = [[rng.choice([1, 1, 2]), rng.choice([0, 1]), None] for _ in range(n)]
+                    edits = [["imul", 0], ["imul", 2], ["imul", 3], ["iadd", fresh], ["iadd", []],
+                             ["setslice", 0, 1, fresh], ["setslice", n, n, fresh], ["setslice", 0, n, []],
+                             ["reverse"], ["sort", 1], ["insert", 0, fresh[0]], ["insert", n, fresh[1]],
+                             ["delete", 0], ["delete", n - 1], ["replace", 0, fresh[0]], ["clear"]]
+                    for e in edits:
+                        for maxrow in (3, 6):
+                            yield {"kind": kind, "walker": wk, "items": items, "focus": rng.randrange(n),
+                                   "steps": [self.step(["none"], maxrow), self.step(e, maxrow), self.step(["none"], maxrow),
+                                             self.step(["key", "down"], maxrow)]}
+
+    def cases(self, rng, tier):
         if tier == "quick":
             yield from self.state_cases(3, 3, 4)
             for _ in range(1500):
@@ -767,6 +934,10 @@ class C07(core.Check):
             for _ in range(400):
                 yield self.random_history(rng, "real", rng.choice([6, 10, 14]))
             yield from self.key_histories(rng, 3, 2, 12)
+            yield from self.shard_histories(rng, 150)
+            yield from self.spaced_histories("real", range(0, 8), range(1, 8))
+            yield from self.spaced_histories("item", range(0, 8), range(1, 8))
+            yield from self.edit_histories(rng)
         else:
             yield from self.state_cases(3, 4, 5)
             for _ in range(45000):
@@ -774,6 +945,11 @@ class C07(core.Check):
             for _ in range(10000):
                 yield self.random_history(rng, "real", rng.choice([6, 10, 14, 24]))
             yield from self.key_histories(rng, 3, 3, 120)
+            yield from self.shard_histories(rng, 3000)
+            yield from self.spaced_histories("real", range(0, 12), range(1, 12))
+            yield from self.spaced_histories("item", range(0, 12), range(1, 12))
+            for _ in range(4):
+                yield from self.edit_histories(rng)
 
     def search_cases(self, rng, tier):
         yield from self.state_cases(2, 4, 6)
@@ -805,7 +981,7 @@ class C07(core.Check):
                 c["focus"] = case.get("focus", 0) - (1 if i < case.get("focus", 0) else 0)
                 yield c
         for i in range(n):
-            h, sel, cy = case["items"][i]
+            h, sel, cy = case["items"][i][:3]
             if h > 1 and (cy is None or cy < h - 1):
                 c = dict(case)
                 c["items"] = [list(x) for x in case["items"]]
@@ -917,20 +1093,26 @@ class C07(core.Check):
                   "mouse_press_focuses: a button-1 press on a row showing a selectable item focuses it.  "
                   "NOT modelled, hence correspondence/oracle only: page up/down, home/end, set_focus_valign ('does not raise' for "
                   "them; the states they leave are covered by view_ok through the writers argument); exceptions raised by "
-                  "keypress itself are recorded, not judged; widgets whose rows()/render()/cursor disagree; wrap-around "
+                  "keypress / mouse_event are judged by a regression oracle only (signatures recorded from the reference tree); "
+                  "canvas-level trimming of multi-shard items and cache invalidation by walker edits (oracle only); widgets whose rows()/render()/cursor disagree; wrap-around "
                   "walkers; maxrow = 0.")
     level_note = ("Trusted: Coq kernel; the hand transcription Model/ListBoxView.v (validated by exact correspondence: 17 100 "
                   "directly written states + ~2000 random histories per quick run on three walker kinds); the ast scan "
                   "that finds every assignment to offset_rows/inset_fraction; ExtrOcamlBasic extraction + OCaml driver; the "
                   "Python oracle.  Assumes item widgets whose rows() and render() agree and whose cursor row lies inside the "
                   "widget, heights >= 0, maxrow >= 1, index walkers without wrap-around.")
-    rule = ("cases = (walker kind, items [rows, selectable, cursor row], focus, optional directly written offset_rows / "
-            "inset_fraction, steps); each step is one action (render only, up/down/page up/page down/home/end/item keys, mouse "
-            "press button 1/2/4/5, set_focus with coming_from, set_focus_valign, shift_focus, change_focus, "
-            "make_cursor_visible, walker insert/delete/replace/clear, in-place reflow of every item) followed by "
-            "render((cols, maxrow), focus) unless flagged 'nr'.  Exhaustive states: <= 3 items x heights 0..3 x maxrow 1..4 x "
-            "every focus x offset 0..maxrow+1 x inset fractions x cursor rows; random histories on item widgets (model "
-            "compared) and on real Text/Edit/selectable widgets (oracle only); every key pair on small lists.  "
+    rule = ("cases = (walker kind, items [rows, selectable, cursor row, optional second-column height], focus, optional "
+            "directly written offset_rows / inset_fraction, steps); each step is one action (render only, "
+            "up/down/page up/page down/home/end/item keys, mouse press button 1/2/4/5, set_focus with coming_from, "
+            "set_focus_valign, shift_focus, change_focus, make_cursor_visible, walker insert/delete/replace/clear/*=/+=/"
+            "slice assignment/reverse/sort, in-place reflow of every item) followed by render((cols, maxrow), focus) unless "
+            "flagged 'nr'; the previous canvases stay referenced, as by a screen, so a stale cached canvas shows.  Exhaustive "
+            "states: <= 3 items x heights 0..3 x maxrow 1..4 x every focus x offset 0..maxrow+1 x inset fractions x cursor "
+            "rows; random histories on labelled item widgets (model compared) and on real Text/Edit/selectable/two-column "
+            "(multi-shard) widgets (oracle only, window compared cell-wise with the items' own renderings); every key pair on "
+            "small lists; multi-shard lists scrolled line by line; regularly spaced selectable items paged through every box "
+            "height; every kind of walker edit between two renders.  An exception out of keypress/mouse_event is accepted "
+            "only with a signature recorded from the reference tree (corpus/C07/baseline_keypress_exceptions.json).  "
             "non-trivial = some render showed an item row or something raised; distinct by hash of (case, outcome)")
     trusted_base = [
         "Coq 8.16.1 kernel (coqc; vm_compute only in closed examples and the refutation witness)",
